@@ -1,7 +1,6 @@
 package props
 
 import (
-	"strings"
 
 	"golang.org/x/tools/go/ssa"
 
@@ -315,7 +314,7 @@ func c16R4(p *engine.Prog, r *engine.Report) {
 			}
 			// appended element resolved from the iterated element
 			if ok {
-				ok = dependsOnIterVarIn(c.Common().Args[1], loopBlocks(hdr))
+				ok = dependsOnLoopPosition(c.Common().Args[1], loopBlocks(hdr))
 			}
 		}
 		r.Check(ok, "C16-R4", "PrivateEncryptionKeyCandidates|one recipient entry per list element, in order", p.Pos(f.Pos()), "every iteration appends exactly the element's public key", "the recipient list skips or filters elements of candidatesPerAuthor[author]: positions no longer match getPrivateKeyPackageIndex, a recipient reads another slot of the key package")
@@ -327,11 +326,11 @@ func c16R4(p *engine.Prog, r *engine.Report) {
 			if len(ret.Results) != 1 {
 				continue
 			}
-			if ph, isPhi := ret.Results[0].(*ssa.Phi); isPhi && strings.Contains(ph.Comment, "rangeindex") {
+			if ph, isPhi := ret.Results[0].(*ssa.Phi); isPhi && isLoopIndexPhi(ph) {
 				ok = true
 			}
 			if bo, isB := ret.Results[0].(*ssa.BinOp); isB {
-				if ph, isPhi := bo.X.(*ssa.Phi); isPhi && strings.Contains(ph.Comment, "rangeindex") {
+				if ph, isPhi := bo.X.(*ssa.Phi); isPhi && isLoopIndexPhi(ph) {
 					ok = true
 				}
 			}
@@ -339,4 +338,18 @@ func c16R4(p *engine.Prog, r *engine.Report) {
 		r.Check(ok, "C16-R4", "getPrivateKeyPackageIndex|returns the position in the raw list", p.Pos(f.Pos()), "range index of the first match", "package index is not the position in candidatesPerAuthor[author]")
 	}
 	r.Floor("C16-R4", 3, "placeholder + two positional readers")
+}
+
+// dependsOnLoopPosition: v is computed from the position variable of the (ordered) loop made of blocks:
+// the element or hidden index of a range loop, or a classic induction variable.
+func dependsOnLoopPosition(v ssa.Value, blocks map[*ssa.BasicBlock]bool) bool {
+	if dependsOnIterVarIn(v, blocks) {
+		return true
+	}
+	for x := range engine.BackSlice(v, engine.DefaultSlice) {
+		if ph, ok := x.(*ssa.Phi); ok && blocks[ph.Block()] && isLoopIndexPhi(ph) {
+			return true
+		}
+	}
+	return false
 }
